@@ -20,13 +20,13 @@ import (
 func init() {
 	sim.RegisterKind("connid-duplicate", "C16")
 	sim.RegisterKind("connid-unbacked", "C16")
-	sim.RegisterKind("connect-unexpected", "C16")
+	sim.RegisterKind("connect-unexpected", "C16", "C04")
 	sim.RegisterKind("connect-dup-code", "C16")
 	sim.RegisterKind("connect-accepted-denied", "C01", "C16")
 	sim.RegisterKind("attempt-unpermitted", "C16", "C02")
 	sim.RegisterKind("attempt-missing", "C16")
 	sim.RegisterKind("bind-accepted", "C16", "C03")
-	sim.RegisterKind("bind-rejected", "C16")
+	sim.RegisterKind("bind-rejected", "C16", "C03")
 	sim.RegisterKind("bind-deadline", "C16")
 	sim.RegisterKind("pipe-bytes", "C16")
 	sim.RegisterKind("pipe-close", "C16")
